@@ -271,7 +271,7 @@ class C04(PropertyCheck):
                         c["tag"] = f"enum_{''.join(lst)}_{kshape[0]}x{kshape[1]}_{'signed' if signed else 'nonneg'}"
                         yield c
         # 2. structured random
-        nrand = 120 if tier == "quick" else 1500
+        nrand = 90 if tier == "quick" else 1200
         for _ in range(nrand):
             kshape = rng.choice(KERNEL_SHAPES[1:])
             signed = rng.random() < 0.5
@@ -306,7 +306,7 @@ class C04(PropertyCheck):
                 yield {**c, "kind": "utils", "objs": [mappers[0]],
                        "tag": f"utils_{kshape[0]}x{kshape[1]}_{'signed' if signed else 'nonneg'}_{mappers[0]['kind']}"}
         # 3. the mirroring routine alone, on sparse asymmetric matrices
-        for _ in range(40 if tier == "quick" else 400):
+        for _ in range(30 if tier == "quick" else 300):
             n = rng.randint(1, 6)
             mm = [[(F(rng.randint(-4, 4), 2) if rng.random() < 0.5 else F(0)) for _ in range(n)] for _ in range(n)]
             yield {"tag": "mirrored", "kind": "mirrored", "matrix": qmat(mm)}
@@ -343,17 +343,31 @@ class C04(PropertyCheck):
             raise Skip("PSF normalisation of a zero-sum kernel")
         obs = {"_tables": tables,
                "_kernel": {"kh": int(kern.shape[0]), "kw": int(kern.shape[1]), "vals": qlist(kern.ravel())}}
+        def matrices(inv):
+            return {"operated_mapping_matrix": qmat(np.asarray(inv.operated_mapping_matrix)),
+                    "data_vector": qlist(np.asarray(inv.data_vector)),
+                    "curvature_matrix": qmat(np.array(inv.curvature_matrix, copy=True))}
+
+        def solve(inv):
+            try:
+                rec = np.array(inv.reconstruction, copy=True)
+                return {"reconstruction": qlist(rec),
+                        "mapped_reconstructed_data": qlist(np.asarray(inv.mapped_reconstructed_data))}
+            except Exception as e:
+                return {"reconstruction": _exc_kind(e)}
+
         for flag, key in ((False, "mapping"), (True, "w_tilde")):
             settings = aa.SettingsInversion(use_w_tilde=flag, use_positive_only_solver=False,
                                             no_regularization_add_to_curvature_diag_value=eps)
-            # fresh objects per run would hide nothing here: the inversion does not mutate them (C11)
+            # Two access histories per formalism (the quantities are cached properties and the solve adds
+            # the regularization matrix to the curvature matrix, in place on some paths):
+            #   first instance : matrices, solve, matrices AGAIN ("after")
+            #   second instance: solve FIRST, then matrices ("solve_first")
             try:
                 inv = aa.Inversion(dataset=ds, linear_obj_list=objs, settings=settings)
                 o = {"formalism": {"InversionImagingMapping": "mapping",
                                    "InversionImagingWTilde": "w_tilde"}.get(type(inv).__name__, type(inv).__name__)}
-                o["operated_mapping_matrix"] = qmat(np.asarray(inv.operated_mapping_matrix))
-                o["data_vector"] = qlist(np.asarray(inv.data_vector))
-                o["curvature_matrix"] = qmat(np.array(inv.curvature_matrix, copy=True))
+                o.update(matrices(inv))
             except Exception as e:
                 if "Qhull" in type(e).__name__ or "qhull" in str(e).lower():
                     raise Skip("degenerate Delaunay point set")
@@ -361,12 +375,12 @@ class C04(PropertyCheck):
                 continue
             if "_H" not in obs:
                 obs["_H"] = qmat(np.asarray(inv.regularization_matrix))
-            try:
-                rec = np.array(inv.reconstruction, copy=True)
-                o["reconstruction"] = qlist(rec)
-                o["mapped_reconstructed_data"] = qlist(np.asarray(inv.mapped_reconstructed_data))
-            except Exception as e:
-                o["reconstruction"] = _exc_kind(e)
+            o.update(solve(inv))
+            o["after"] = matrices(inv)
+            inv2 = aa.Inversion(dataset=ds, linear_obj_list=objs, settings=settings)
+            sf = solve(inv2)
+            sf.update(matrices(inv2))
+            o["solve_first"] = sf
             obs[key] = o
         return obs
 
@@ -463,7 +477,18 @@ class C04(PropertyCheck):
             return r["ok"] if "ok" in r else {"err": r.get("err")}
         out = {}
         for key, r in zip(("mapping", "w_tilde"), responses):
-            out[key] = r["ok"] if "ok" in r else {"err": r.get("err")}
+            if "ok" not in r:
+                out[key] = {"err": r.get("err")}
+                continue
+            o = dict(r["ok"])
+            mats = {k: o[k] for k in ("operated_mapping_matrix", "data_vector", "curvature_matrix")}
+            o["after"] = dict(mats)             # reads are history independent in the model
+            sf = dict(mats)
+            for k in ("reconstruction", "mapped_reconstructed_data"):
+                if k in o:
+                    sf[k] = o[k]
+            o["solve_first"] = sf
+            out[key] = o
         return out
 
     @staticmethod
@@ -499,20 +524,27 @@ class C04(PropertyCheck):
                 continue
             # the solve: compare only when numpy's answer is determined to 1e-9 by the data
             well = self._cond(impl_obs, key) < 1e6
-            rec_a, rec_b = a.pop("reconstruction", None), b.pop("reconstruction", None)
-            mrd_a, mrd_b = a.pop("mapped_reconstructed_data", None), b.pop("mapped_reconstructed_data", None)
-            d = cmp.diff(a, b, f"$.{key}")
-            if d:
-                return d
-            if isinstance(rec_a, str) or isinstance(rec_b, str):
-                # InversionException (singular / check_reconstruction) on one side only is a solver matter
-                # (C05) unless the model finds the system singular as well
-                continue
-            if well and rec_a is not None and rec_b is not None:
-                d = cmp.diff(rec_a, rec_b, f"$.{key}.reconstruction") or \
-                    cmp.diff(mrd_a, mrd_b, f"$.{key}.mapped_reconstructed_data")
+            for sub in (None, "after", "solve_first"):
+                ra = dict(a if sub is None else a[sub])
+                rb = dict(b if sub is None else b[sub])
+                path = f"$.{key}" + ("" if sub is None else f".{sub}")
+                for k in ("after", "solve_first"):
+                    ra.pop(k, None)
+                    rb.pop(k, None)
+                rec_a, rec_b = ra.pop("reconstruction", None), rb.pop("reconstruction", None)
+                mrd_a, mrd_b = ra.pop("mapped_reconstructed_data", None), rb.pop("mapped_reconstructed_data", None)
+                d = cmp.diff(ra, rb, path)
                 if d:
                     return d
+                if isinstance(rec_a, str) or isinstance(rec_b, str):
+                    # InversionException (singular / check_reconstruction) on one side only is a solver
+                    # matter (C05)
+                    continue
+                if well and rec_a is not None and rec_b is not None:
+                    d = cmp.diff(rec_a, rec_b, f"{path}.reconstruction") or \
+                        cmp.diff(mrd_a, mrd_b, f"{path}.mapped_reconstructed_data")
+                    if d:
+                        return d
         return None
 
     # ------------------------------------------------------------------ oracle (independent of the model)
@@ -620,27 +652,31 @@ class C04(PropertyCheck):
             want = "mapping" if (key == "mapping" or all_funcs) else "w_tilde"
             if o["formalism"] != want:
                 return False, f"factory chose {o['formalism']} for use_w_tilde={key == 'w_tilde'}"
-            Fm = _mat(o["curvature_matrix"])
-            for what, got, exp in (("operated_mapping_matrix != P·M (object order)", _mat(o["operated_mapping_matrix"]), B),
-                                   ("data_vector != B^T N^-1 d", _arr(o["data_vector"]), Dx),
-                                   ("curvature_matrix != B^T N^-1 B + eps on unregularized diag", Fm, Fx),
-                                   ("curvature_matrix not symmetric", Fm, Fm.T)):
-                d = close(got, exp, f"{key}: {what}")
-                if d:
-                    return False, d
-            rec = o.get("reconstruction")
-            if isinstance(rec, list) and H is not None:
-                s = _arr(rec)
-                A = Fx + H
-                resid = A @ s - Dx
-                scale = float(np.abs(A).sum(axis=1).max() * max(1.0, np.abs(s).max()) + np.abs(Dx).max())
-                if float(np.abs(resid).max()) > 1e-7 * scale:
-                    return False, f"{key}: reconstruction does not solve (F+H)s = D (residual {float(np.abs(resid).max()):.3e})"
-                d = close(_arr(o["mapped_reconstructed_data"]), B @ s, f"{key}: mapped_reconstructed_data != B s")
-                if d:
-                    return False, d
-                recs[key] = s
-        if len(recs) == 2 and min(self._cond(obs, "mapping"), self._cond(obs, "w_tilde")) < 1e6:
+            for sub, label in ((None, "first read"), ("after", "read again after the solve"),
+                               ("solve_first", "fresh inversion, read after the solve")):
+                rd = o if sub is None else o[sub]
+                Fm = _mat(rd["curvature_matrix"])
+                for what, got, exp in (("operated_mapping_matrix != P·M (object order)", _mat(rd["operated_mapping_matrix"]), B),
+                                       ("data_vector != B^T N^-1 d", _arr(rd["data_vector"]), Dx),
+                                       ("curvature_matrix != B^T N^-1 B + eps on unregularized diag", Fm, Fx),
+                                       ("curvature_matrix not symmetric", Fm, Fm.T)):
+                    d = close(got, exp, f"{key} ({label}): {what}")
+                    if d:
+                        return False, d
+                rec = rd.get("reconstruction")
+                if sub != "after" and isinstance(rec, list) and H is not None:
+                    s = _arr(rec)
+                    A = Fx + H
+                    resid = A @ s - Dx
+                    scale = float(np.abs(A).sum(axis=1).max() * max(1.0, np.abs(s).max()) + np.abs(Dx).max())
+                    if float(np.abs(resid).max()) > 1e-7 * scale:
+                        return False, f"{key} ({label}): reconstruction does not solve (F+H)s = D (residual {float(np.abs(resid).max()):.3e})"
+                    d = close(_arr(rd["mapped_reconstructed_data"]), B @ s, f"{key} ({label}): mapped_reconstructed_data != B s")
+                    if d:
+                        return False, d
+                    if sub is None:
+                        recs[key] = s
+        if len(recs) == 2 and max(self._cond(obs, "mapping"), self._cond(obs, "w_tilde")) < 1e6:
             d = close(recs["w_tilde"], recs["mapping"], "reconstructions of the two formalisms differ")
             if d:
                 return False, d
